@@ -65,6 +65,10 @@ var props = map[string]propCfg{
 		Required: []string{"sso_accepted", "nonconformant_rejected", "now_equals_notonorafter", "now_equals_notbefore", "sp_skew", "delay"}},
 	"C07": {Level: "exploration", QuickRuns: 1500, QuickBud: 22 * time.Second, ThorRuns: 200000, ThorBud: 10 * time.Minute,
 		Required: []string{"conformant_sso_accepted", "conformant_slo_accepted", "conformant_attrq_accepted"}},
+	"C12": {Level: "exploration", QuickRuns: 1500, QuickBud: 22 * time.Second, ThorRuns: 200000, ThorBud: 10 * time.Minute,
+		Required: []string{"attrq_answered", "attrq_refused", "attrq_filtered", "attrq_answered_with_advertised_destination", "key_rotated", "storage_err"}},
+	"C13": {Level: "exploration", QuickRuns: 1500, QuickBud: 22 * time.Second, ThorRuns: 200000, ThorBud: 10 * time.Minute,
+		Required: []string{"logout_success", "logout_failure", "now_equals_notonorafter", "now_equals_issueinstant", "sp_reregistered", "sp_deleted", "sp_skew"}},
 	"C08": {Level: "exploration", QuickRuns: 1500, QuickBud: 22 * time.Second, ThorRuns: 200000, ThorBud: 10 * time.Minute,
 		Required: []string{"sso_persisted", "sso_not_persisted", "storage_err", "body_error_at"}},
 }
